@@ -702,6 +702,14 @@ pub fn run(ctx: &Ctx) -> PropReport {
     ));
     rep.part(|| run_random(
         ctx,
+        "roundtrip_long",
+        "proptest: sequences of 100..=256 inputs (an endpoint re-sends up to 129 unacknowledged inputs in one packet; 256 is the decoder's documented per-packet limit) of length 0..=6, mostly near-identical as in a session; same oracle",
+        || rt_strategy(6, 256).prop_filter("long", |c| c.inputs.len() >= 100).boxed(),
+        ctx.tier.pick(1500, 10000),
+        eval_rt,
+    ));
+    rep.part(|| run_random(
+        ctx,
         "roundtrip_big",
         "proptest: 1-3 inputs of length up to 65535 (the u16 length prefix's maximum; 65535 and 65534 weighted) with zero/0xFF/random/striped content against a reference of up to 300 bytes; same oracle",
         rt_big_strategy,
